@@ -96,6 +96,10 @@ def judge_exception(ctx, ev, rec):
     if core.is_library_error(e):
         rec.count(f"library_error:{type(e).__name__}")
         return
+    if isinstance(e, RecursionError):
+        # the frame where the interpreter's limit is hit is arbitrary: key by whether the decider bounds the depth at all
+        rec.violation(f"exc:{ctx.repr}:RecursionError:{'unbounded-decider' if ctx.limit is None else 'depth-limited-decider'}", {"error": core.short(e), "op": ev.op, "grammar": ctx.case["desc"]["name"], "decider": ctx.decider, "max_depth": ctx.max_depth})
+        return
     rec.violation(
         f"exc:{ctx.repr}:{ev.op}:{type(e).__name__}@{core.exc_site(e)}",
         {"error": core.short(e), "op": ev.op, "grammar": ctx.case["desc"]["name"], "decider": ctx.decider, "max_depth": ctx.max_depth},
